@@ -288,6 +288,12 @@ def jobs(tier, seed):
                     for a in (1, 2):
                         yield si, st, N, E, ramp(st, N, E, a), m
                         m += 1
+    # medium-size datasets (12-30 rows, category extents 4-7, 4-5 columns): reach size-threshold code paths
+    base = len(structures())
+    for k, (st, N, E) in enumerate((([(5,)], 12, (4,)), ([(4,), ()], 16, (5, 4)), ([(), (3,)], 30, (7, 3)), ([(2, 3)], 14, (5,)), ([(3,), (2,)], 20, (4, 4)))):
+        tot = total_datasets(st, N, E)
+        for ix in spaced(tot, 2, (k * 977 + 5) % tot):
+            yield base + k, st, N, E, dims_from_index(ix, st, N, E), ix % 97
 
 
 def is_sampled(tier):
